@@ -5,7 +5,8 @@ cd /repo || exit 2
 if ! git apply --check "$P" 2>/dev/null; then echo "PATCH-DOES-NOT-APPLY $P"; exit 3; fi
 git apply "$P"
 cd /verif
+cp evidence/$ID.json /tmp/evidence_$ID.bak 2>/dev/null
 ./check "$ID" --tier "$TIER" >/tmp/trymut.out 2>/tmp/trymut.err; RC=$?
 grep -E "VIOLATION|KNOWN" /tmp/trymut.out | head -3
 echo "rc=$RC"; grep -E "^\[$ID\]|CHECK-ERROR|\"what\"" /tmp/trymut.err | head -4
-git -C /repo checkout -- . ; python3 /verif/lib/extract.py >/dev/null; git -C /repo status --short | head -3
+cp /tmp/evidence_$ID.bak evidence/$ID.json 2>/dev/null; git -C /repo checkout -- . ; python3 /verif/lib/extract.py >/dev/null; git -C /repo status --short | head -3
